@@ -88,6 +88,8 @@ STR_CONTENTS = ["", "a", "é", "x y", "\\\\", "\\\"", "\\u0041", "\\U01F600", "{
                 "\\u00e9", "\\U01f602", "\\u00Ff", "\\uabcd", "\\U00aBcD", "a\\u00e9b", "\\u00e9\\u00E9",
                 # four / six hex digits are all the GRAMMAR asks for: values that are no scalar value (surrogates, beyond
                 # U+10FFFF) and U+0000 are well-formed literals (decoding them is the resolver's business)
+                # an escaped backslash directly followed by an escaped quote (3 or 5 backslashes before a quote)
+                "\\\\\\\"", "a\\\\\\\"b", "\\\\\\\\\\\"", "\\\"\\\\",
                 "\\uD800", "\\udfff", "\\U110000", "\\UFFFFFF", "\\U00d800", "\\U10FFFF", "\\u0000", "\\U7fffff x"]
 NUMS = ["0", "1", "-1", "1.5", "-0.0", "007", "12345678901234567890", "3.14159"]
 
